@@ -44,7 +44,7 @@ impl TrapHandlerConfig {
 }
 pub struct RuntimeOptions { pub shell_functions_inherit_err_trap: bool, pub shell_functions_inherit_debug_and_return_traps: bool, pub enable_job_control: bool, pub rest: ParamsRest }
 // ghost log of command texts run through run_string, in an opaque part of the shell so that plain field writes do not disturb it
-pub struct RunEv { pub text: Seq<char>, pub exit_due_after: bool, pub exit_cmd_after: Seq<char> }
+pub struct RunEv { pub text: Seq<char>, pub exit_due_after: bool, pub exit_cmd_after: Seq<char>, pub exempt: bool }     // exempt: the errexit exemption the text ran under
 #[verifier::external_body] pub struct Rest { _p: u8 }
 impl Rest { pub uninterp spec fn runs(&self) -> Seq<RunEv>; }
 
@@ -98,6 +98,7 @@ impl Shell {
             final(self).call_stack.suppressed() == old(self).call_stack.suppressed(),
             final(self).runs().len() == old(self).runs().len() + 1, final(self).runs().drop_last() == old(self).runs(),
             final(self).runs().last().text == command@,
+            final(self).runs().last().exempt == params.suppress_errexit,
             final(self).runs().last().exit_due_after == exit_due(*final(self)),
             final(self).traps.handler(TrapSignal::Exit) is Some ==> final(self).runs().last().exit_cmd_after == final(self).traps.handler(TrapSignal::Exit)->Some_0.command@,
     { unimplemented!() }
